@@ -225,11 +225,18 @@ def run(ctx):
         # every crash point: kill on entry of the j-th call of the sequence.  `when` counts the calls of one
         # thread; the Go runtime may run the goroutine on another thread the next time, so several counts are
         # tried and every crash that is produced is labelled by the calls that really completed
-        for j, (op, sname, nth, _) in enumerate(ops):
-            if j in points and j != 0:
+        # crash points whose file-system state is the same (the calls between them mutate nothing: stat, close)
+        # form one class; one produced point per class is enough, the unique calls (fchmod, rename) go first
+        def cls(k):
+            nm = seq[k - 1].split(":")[0] if 0 < k <= len(seq) else ""
+            return k - 1 if nm in ("stat", "close") else k
+        order = sorted(range(len(ops)), key=lambda j: (0 if ops[j][1] in ("fchmod", "renameat", "renameat2", "rename") else 1, j))
+        for j in order:
+            op, sname, nth, _ = ops[j]
+            if j == 0 or any(cls(k) == cls(j) for k in points if k != 0):
                 continue
-            for cand in [nth, nth - 1, nth + 1, 1, 2, 3]:
-                if cand < 1 or (j in points and j != 0):
+            for cand in [nth, nth - 1, nth + 1, 1]:
+                if cand < 1 or any(cls(k) == cls(j) for k in points if k != 0):
                     continue
                 setup(d, c)
                 rck, kops = run_strace(ctx, xgo, d, rel, inject=(sname, cand))
@@ -246,7 +253,7 @@ def run(ctx):
                              "killed on entry of call %d (%s): the path is %s" % (k, seq[k], s_),
                              {"case": c["id"], "crash_after_calls": k, "calls": seq, "state": s_,
                               "how": "strace -f -e inject=%s:signal=SIGKILL:when=%d xgo fmt %s" % (sname, cand, rel)})
-            if j not in points:
+            if not any(cls(k) == cls(j) for k in points if k != 0):
                 missed_total += 1
         ks = sorted(points)
         impl_lines.append("%s | %s" % (" ".join(seq), " ".join("%d=%s" % (k, points[k]) for k in ks)))
@@ -266,14 +273,15 @@ def run(ctx):
         # write sizes: the model's content is abstract, the length is given -> identical text
         proj.append("%s | %s" % (parts[0], " ".join("%d=%s" % (k, pts.get(str(k), "?")) for k in ks)))
     ctx.diff_lines("run_wfb~xgo fmt", [m[0]["id"] for m in meta], "\n".join(impl_lines), "\n".join(proj))
-    need = sum(len(m[2]) for m in meta)
-    if len(covered_total) * 2 < need:
+    need = sum(len(set(1 + i for i, o in enumerate(m[2]) if o.split(":")[0] in ("create", "write", "fchmod"))) for m in meta)
+    if len(covered_total) < need:
         ctx.broken("fault-enumeration(c26)", "only %d of %d crash points could be produced" % (len(covered_total), need))
     ctx.cover(evaluations=runs, distinct_nontrivial=len(covered_total) + len(meta),
               samples=[{"case": m[0]["id"], "implementation": il, "model": pl} for m, il, pl in zip(meta, impl_lines, proj)][:4],
-              rule="%d files (regular / symbolic link, .xgo / .go%s, modes %s); per file one traced complete run + one SIGKILL-on-entry "
-                   "run per recorded call (create, write, stat, fchmod, close, rename), labelled by the calls that really "
-                   "completed; non-trivial = distinct (file, crash point) produced on the implementation + complete runs; "
+              rule="%d files (regular / symbolic link, .xgo / .go%s, modes %s); per file one traced complete run + SIGKILL-on-entry runs "
+                   "until every distinct file-system state between the recorded calls (create, write, stat, fchmod, close, rename) has "
+                   "been produced (after create / after write / after fchmod; before create = untouched, after rename = complete run), "
+                   "labelled by the calls that really completed; non-trivial = distinct (file, crash point) produced on the implementation + complete runs; "
                    "%d injections missed their point (thread migration) after 3 attempts"
                    % (len(meta), "" if ctx.quick else " / .gox", ",".join("%o" % m[0]["mode"] for m in meta), missed_total),
               crash_points_covered=sorted("%s@%d" % x for x in covered_total), exhaustive=(missed_total == 0),
